@@ -131,7 +131,8 @@ fn run_case(rep: &mut Report, case: u64) {
     let mut world = World::new();
     world.register::<CDense>();
     world.register::<CVec>();
-    let n = match rng.weighted(&[50, 30, 20]) {
+    let small = cfg.extra_u64("small", 0) == 1;
+    let n = match rng.weighted(&[50, 30, if small { 0 } else { 20 }]) {
         0 => rng.range(1, 12),
         1 => rng.range(60, 200),
         _ => 8300,
